@@ -11,7 +11,7 @@ CONSTANTS
   ScaleKs <- K_one
   Kinds = {"list"}
   PerturbNames <- N_base
-  RegPool <- Regs2
+  RegPool <- Regs2s
   Keys = {"energy"}
   HelperNames = {"linspace"}
   Plan <- Plan_conv1
